@@ -9,8 +9,11 @@ _T = ["scalar_reduce_eq", "scalar_negate_eq", "scalar_complement_eq", "scalar_ad
       "valid_point_decision", "is_inf_iff", "scalar_bytes_value", "scalarmult_rc_decision", "scalarmult_base_rc_decision",
       "xmd_eq_rfc", "xmd_eq_libsodium", "xmd_oversize_deviation", "from_string_eq_spec", "from_string_eq_rfc", "from_string_bad_alg", "ristretto_from_string_eq_spec", "from_string_ro_eq"]
 THEOREMS = vcore.theorems_in("SodiumModel/Properties/C07.lean", _T, "Sodium.C07")
+THEOREMS = THEOREMS + vcore.theorems_in("SodiumModel/Properties/C07Reduce.lean", ['load_spec', 'fold_step_spec', 'fold_constants', 'fold_blocks_spec', 'carry_blocks_spec', 'no_overflow', 'mul_no_overflow', 'bounds_small', 'reduce_tail_spec', 'sc25519_reduce_spec', 'sc25519_reduce_canonical', 'sc25519_mul_spec', 'sc25519_muladd_spec', 'sc25519_invert_spec', 'sc25519_reduce_eq_spec', 'sc25519_mul_eq_spec', 'scalar_reduce_real_spec', 'scalar_negate_real_spec', 'scalar_complement_real_spec', 'scalar_add_real_general', 'scalar_add_real_spec', 'scalar_sub_real_general', 'scalar_sub_real_spec', 'scalar_mul_real_spec', 'scalar_invert_real_spec', 'scalar_add_real_deviation'], "Sodium.C07Reduce")
 IMPORTS = ["SodiumModel.Properties.C07"] if THEOREMS else ["SodiumModel.Spec.Ed25519"]
+IMPORTS = IMPORTS + ["SodiumModel.Properties.C07Reduce"]
 TABLES = ['core_ed25519_L_eq']      # Tie B: kernel-checked `table regenerated from the source = model table`
+TIEB_SC = True     # Tie B: the sc25519 limb model is re-transcribed from the current source and the proofs re-checked against it
 RULE = ("structured 32-byte encodings: every small-order point and alias, y >= p, x = 0 with sign bit, non-squares, prime-order points shifted by each torsion point, random; "
         "scalars 0, 1, L-1, L, L+1, 2L, 8L, 2^252 +- k, 2^255 +- k, all-ones, random reduced and unreduced, 64-byte inputs up to 2^512-1; hash-to-group for both hashes, NU and RO, "
         "contexts NULL / empty / up to 255 / longer than 255 bytes; Ristretto negative / non-canonical encodings; every op on ed25519 and ristretto255 wrappers")
